@@ -525,8 +525,11 @@ def check(pid, tier, seed):
     # 2. builds
     ok, log = hc.coq_make("theories/Extract/Entry.vo")
     if not ok:
-        print("INFRA: model does not compile\n" + log[-2000:])
-        return 2
+        # the model (possibly its generated parts) no longer compiles: the tie to the code is broken
+        print("model does not compile:\n" + log[-1500:])
+        path = hc.write_replay(pid, dict(property=pid, kind="broken-tie", what="the Coq model (with the parts regenerated from /repo) does not compile", log=log[-3000:]))
+        print("VIOLATION property=%s replay=%s no-failing-input-found" % (pid, path))
+        return 1
     ok, log = hc.build_ml()
     if not ok:
         print("INFRA: model extraction/build failed\n" + log[-2000:])
